@@ -80,33 +80,53 @@ func (a *fieldAggregator) ResultSet() (startTime int64, it series.FieldIterator)
 func (a *fieldAggregator) Aggregate(it series.FieldIterator) {
 	for it.HasNext() {
 		pIt := it.Next()
+		// NOTE: the field series holds one primitive series for each aggregate type(already aggregated by it),
+		// it must be merged into the values of the same aggregate type only, if not, e.g. sum(f) and max(f)
+		// of one field in a query are mixed: the sum also gets the values of max series.
+		target := -1
+		for idx, aggType := range a.aggTypes {
+			if aggType == pIt.AggType() {
+				target = idx
+				break
+			}
+		}
 		for pIt.HasNext() {
 			slot, value := pIt.Next()
-			a.AggregateBySlot(slot, value)
+			if target < 0 {
+				a.AggregateBySlot(slot, value)
+			} else {
+				a.aggregate(target, slot, value)
+			}
 		}
 	}
 }
 
 // AggregateBySlot aggregates the field series into current aggregator
 func (a *fieldAggregator) AggregateBySlot(slot int, value float64) {
+	for idx := range a.aggTypes {
+		a.aggregate(idx, slot, value)
+	}
+}
+
+// aggregate aggregates the value into the values of the aggregate type.
+func (a *fieldAggregator) aggregate(idx, slot int, value float64) {
 	// drop inf value
 	if math.IsInf(value, 1) {
 		return
 	}
 	pos := slot - a.start
-	for idx, aggType := range a.aggTypes {
-		values := a.fieldSeriesList[idx]
-		if values == nil {
-			values = collections.NewFloatArray(a.end - a.start + 1)
-			values.SetValue(pos, value)
-			a.fieldSeriesList[idx] = values
+	aggType := a.aggTypes[idx]
+	values := a.fieldSeriesList[idx]
+	if values == nil {
+		values = collections.NewFloatArray(a.end - a.start + 1)
+		values.SetValue(pos, value)
+		a.fieldSeriesList[idx] = values
+	} else {
+		// slot too large for last family
+		if values.HasValue(pos) {
+			values.SetValue(pos, aggType.Aggregate(values.GetValue(pos), value))
 		} else {
-			// slot too large for last family
-			if values.HasValue(pos) {
-				values.SetValue(pos, aggType.Aggregate(values.GetValue(pos), value))
-			} else {
-				values.SetValue(pos, value)
-			}
+			values.SetValue(pos, value)
 		}
 	}
 }
